@@ -386,3 +386,178 @@ def mon_c02(net, obs, opts):
                     if not (rel(got, want) <= rt or abs(got - want) <= 1e-14):
                         obs.violate("derived_" + col, "%s: reported %s=%.10g, expected %.10g" % (el, col, got, want),
                                     element=el, column=col, reported=got, expected=want)
+
+
+# ------------------------------------------------------------------------------------------------
+# C03 prescribed pressures, flows, lifts and ratios
+# ------------------------------------------------------------------------------------------------
+
+def _poly_curve(reg_par, vdot):
+    """Pump characteristic written from the documentation: regression polynomial in m3/h, never
+    negative, zero for reverse flow."""
+    if vdot < 0:
+        return 0.0
+    x = vdot * 3600.0
+    n = len(reg_par)
+    return max(0.0, sum(float(c) * x ** (n - 1 - i) for i, c in enumerate(reg_par)))
+
+
+def mon_c03(net, obs, opts):
+    fluid = net.fluid
+    gas = bool(fluid.is_gas)
+    tol_p, tol_m = opts.get("tol_p", 1e-5), opts.get("tol_m", 1e-5)
+    tight = tol_p <= 1e-8 and tol_m <= 1e-8
+    lift_tol = 1e-7 if tight else 4 * tol_p + 1e-7
+    pj = net.res_junction.p_bar
+    J = net.junction
+
+    def ok_rel(a, b, tol=1e-9):
+        return abs(a - b) <= tol * max(1.0, abs(a), abs(b))
+
+    # ---- fixed pressures
+    fixed = {}
+    if has(net, "ext_grid"):
+        E = net.ext_grid
+        for idx in E.index:
+            if bool(E.at[idx, "in_service"]) and "p" in str(E.at[idx, "type"]):
+                fixed.setdefault(int(E.at[idx, "junction"]), {"eg": [], "cp": []})["eg"].append(float(E.at[idx, "p_bar"]))
+    for t in ("circ_pump_mass", "circ_pump_pressure"):
+        if has(net, t):
+            T = net[t]
+            for idx in T.index:
+                if bool(T.at[idx, "in_service"]):
+                    fixed.setdefault(int(T.at[idx, "flow_junction"]), {"eg": [], "cp": []})["cp"].append(float(T.at[idx, "p_flow_bar"]))
+    for j, d in fixed.items():
+        if j not in pj.index or math.isnan(float(pj.at[j])) or not bool(J.at[j, "in_service"]):
+            continue
+        vals = d["eg"] + d["cp"]
+        want = sum(vals) / len(vals)
+        kind = "fixed_pressure_%s" % ("several" if len(vals) > 1 else ("ext_grid" if d["eg"] else "circ_pump"))
+        obs.count(kind)
+        got = float(pj.at[j])
+        obs.maxi("max_abs_fixed_pressure_dev_bar", abs(got - want))
+        if abs(got - want) > 1e-9 * max(1, abs(want)):
+            obs.violate("fixed_pressure_not_met", "junction %d: p_bar=%.12g, prescribed (mean) %.12g" % (j, got, want),
+                        junction=j, p_bar=got, prescribed=vals)
+    # ---- pressure controllers
+    if has(net, "press_control") and "res_press_control" in net:
+        T, R = net.press_control, net.res_press_control
+        for idx in T.index:
+            if not (bool(T.at[idx, "in_service"]) and bool(T.at[idx, "control_active"])):
+                continue
+            if math.isnan(float(R.at[idx, "mdot_from_kg_per_s"])):
+                continue
+            cj = int(T.at[idx, "controlled_junction"])
+            got, want = float(pj.at[cj]), float(T.at[idx, "controlled_p_bar"])
+            obs.count("press_control_setpoints" + ("_remote" if cj != int(T.at[idx, "to_junction"]) else ""))
+            if not ok_rel(got, want):
+                obs.violate("press_control_setpoint_not_met", "%s: controlled junction %d has %.12g bar, set %.12g"
+                            % (name_of(net, "press_control", idx), cj, got, want), p_bar=got, controlled_p_bar=want)
+    # ---- prescribed mass flows
+    for t, col, active_col in (("flow_control", "controlled_mdot_kg_per_s", "control_active"),
+                               ("circ_pump_mass", "mdot_flow_kg_per_s", None)):
+        if not has(net, t) or "res_" + t not in net:
+            continue
+        T, R = net[t], net["res_" + t]
+        for idx in T.index:
+            if not bool(T.at[idx, "in_service"]) or (active_col and not bool(T.at[idx, active_col])):
+                continue
+            got = float(R.at[idx, "mdot_from_kg_per_s"])
+            if math.isnan(got):
+                continue
+            want = float(T.at[idx, col])
+            obs.count("prescribed_flow_" + t)
+            if not ok_rel(got, want, 1e-10):
+                obs.violate("prescribed_flow_not_met", "%s: mdot_from=%.12g, set %.12g" % (name_of(net, t, idx), got, want),
+                            mdot=got, setpoint=want)
+    # ---- lifts: pressure circulation pump, compressor, pump
+    hj = J.height_m
+
+    def lift_of(R, idx, fj, tj):
+        p1 = float(R.at[idx, "p_from_bar"]) + float(ph.p_amb(hj.at[fj]))
+        p2 = float(R.at[idx, "p_to_bar"]) + float(ph.p_amb(hj.at[tj]))
+        rho = ph.mean_density(fluid, p1, p2, float(R.at[idx, "t_from_k"]), float(R.at[idx, "t_outlet_k"]))
+        return p1, p2, p2 - p1 - rho * ph.G * (float(hj.at[fj]) - float(hj.at[tj])) / ph.P_CONV, rho
+
+    if has(net, "circ_pump_pressure") and "res_circ_pump_pressure" in net:
+        T, R = net.circ_pump_pressure, net.res_circ_pump_pressure
+        for idx in T.index:
+            if not bool(T.at[idx, "in_service"]) or math.isnan(float(R.at[idx, "mdot_from_kg_per_s"])):
+                continue
+            p1, p2, lift, rho = lift_of(R, idx, int(T.at[idx, "return_junction"]), int(T.at[idx, "flow_junction"]))
+            want = float(T.at[idx, "plift_bar"])
+            obs.count("lift_circ_pump_pressure")
+            obs.maxi("max_abs_lift_dev_bar", abs(lift - want))
+            if abs(lift - want) > lift_tol:
+                obs.violate("circ_pump_lift_not_met", "%s lifts %.10g bar, set %.10g" % (name_of(net, "circ_pump_pressure", idx), lift, want),
+                            lift=lift, plift_bar=want)
+    if has(net, "compressor") and "res_compressor" in net:
+        T, R = net.compressor, net.res_compressor
+        for idx in T.index:
+            m = float(R.at[idx, "mdot_from_kg_per_s"])
+            if not bool(T.at[idx, "in_service"]) or math.isnan(m):
+                continue
+            fj, tj = int(T.at[idx, "from_junction"]), int(T.at[idx, "to_junction"])
+            p1, p2, lift, rho = lift_of(R, idx, fj, tj)
+            ratio = float(T.at[idx, "pressure_ratio"])
+            if abs(m) <= 4 * tol_m:
+                obs.count("compressor_near_zero_flow_not_judged")
+                continue
+            want = p1 * (ratio - 1.0) if m > 0 else 0.0
+            obs.count("compressor_forward" if m > 0 else "compressor_reverse")
+            obs.maxi("max_abs_lift_dev_bar", abs(lift - want))
+            if abs(lift - want) > lift_tol * max(1.0, ratio):
+                obs.violate("compressor_ratio_not_met", "%s: corrected p_to/p_from = %.10g, ratio %.10g, mdot %.4g"
+                            % (name_of(net, "compressor", idx), (p1 + lift) / p1, ratio, m), lift=lift, expected_lift=want)
+    if has(net, "pump") and "res_pump" in net:
+        T, R = net.pump, net.res_pump
+        for idx in T.index:
+            m = float(R.at[idx, "mdot_from_kg_per_s"])
+            if not bool(T.at[idx, "in_service"]) or math.isnan(m):
+                continue
+            fj, tj = int(T.at[idx, "from_junction"]), int(T.at[idx, "to_junction"])
+            p1, p2, lift, rho = lift_of(R, idx, fj, tj)
+            dp = float(R.at[idx, "deltap_bar"])
+            obs.count("pump_lift_momentum")
+            if abs(lift - dp) > lift_tol:
+                obs.violate("pump_lift_inconsistent", "%s: pressures show a lift of %.10g bar, deltap_bar=%.10g"
+                            % (name_of(net, "pump", idx), lift, dp), lift=lift, deltap_bar=dp)
+            reg = net.std_types["pump"][T.at[idx, "std_type"]].reg_par
+            if gas:
+                vdot = float(R.at[idx, "vdot_norm_m3_per_s"]) * float(R.at[idx, "normfactor_from"])
+                dv = 4 * tol_m / float(fluid.get_density(ph.T_N)) * float(R.at[idx, "normfactor_from"])
+            else:
+                vdot = float(R.at[idx, "vdot_m3_per_s"])
+                dv = 4 * tol_m / rho
+            want = _poly_curve(reg, vdot)
+            slack = abs(_poly_curve(reg, vdot + dv) - _poly_curve(reg, max(vdot - dv, 0))) + 1e-9 + 1e-9 * abs(want)
+            if abs(m) <= 4 * tol_m:
+                obs.count("pump_near_zero_flow_not_judged")
+                continue
+            obs.count("pump_curve_forward" if m > 0 else "pump_curve_reverse")
+            obs.maxi("max_abs_pump_curve_dev_bar", abs(dp - want))
+            if abs(dp - want) > slack:
+                # classification: does the lift match the curve at mdot / rho(273.15 K)?
+                alt = _poly_curve(reg, m / float(fluid.get_density(ph.T_N))) if not gas else None
+                tag = "pump_curve_at_normal_density" if (alt is not None and abs(dp - alt) <= slack) else "pump_curve_not_met"
+                obs.violate(tag, "%s: deltap_bar=%.8g but curve(reported volume flow %.6g m3/s)=%.8g"
+                            % (name_of(net, "pump", idx), dp, vdot, want), deltap_bar=dp, vdot=vdot, curve=want,
+                            curve_at_normal_density=alt, t_from_k=float(R.at[idx, "t_from_k"]))
+    # ---- loads report mdot * scaling
+    for t in ("sink", "source", "mass_storage"):
+        if not has(net, t) or "res_" + t not in net:
+            continue
+        T, R = net[t], net["res_" + t]
+        for idx in T.index:
+            ju = int(T.at[idx, "junction"])
+            if not bool(T.at[idx, "in_service"]) or math.isnan(float(pj.at[ju])) or not bool(J.at[ju, "in_service"]):
+                continue
+            m = float(T.at[idx, "mdot_kg_per_s"])
+            if math.isnan(m):
+                continue
+            want = m * float(T.at[idx, "scaling"])
+            got = float(R.at[idx, "mdot_kg_per_s"])
+            obs.count("load_reports_" + t)
+            if not (got == want or abs(got - want) <= 1e-12 * max(1, abs(want))):
+                obs.violate("load_not_reported", "%s reports %.12g, mdot*scaling=%.12g" % (name_of(net, t, idx), got, want),
+                            reported=got, expected=want)
